@@ -1,4 +1,5 @@
 import Mastverif.Lemmas.Heap
+import Mastverif.Lemmas.PtrSys
 /-!
 # C11 — independent trees sharing a store and a cache (property theorems, partial)
 
@@ -73,6 +74,51 @@ example :
   refine ⟨by simp [Foreign], by decide, rfl⟩
 
 end Mast.Heap
+/-!
+## The logic of the code never touches what another tree can see
+
+For the object-level transcription (`Model/Ptr.lean`) of Insert / Delete / MakeRoot / Clone: every
+object another owner `v` can see — every node of its own and every shared (cached, persisted)
+node — is, after the call, *the same object with the same fields*; and `v`'s view stays closed.
+Each primitive step of the call has this property (`foreign_step`), so it holds at every
+intermediate point as well: whatever `v` does concurrently, the caller never writes a location
+`v` may read.  (What the model cannot exhibit: the Go memory model itself, the internals of the
+cache and of the store; they are covered by the race detector runs of the `conc` family.)
+-/
+namespace Mast.Ptr
+open Mast.Heap
+
+theorem C11_insert_leaves_foreign_objects_partial (E : Env) (fuel : Nat) (s : PS) (t : PTree) (key val : Nat)
+    (hinv : Inv t.id s) (hroot : Vis s.heap t.id t.root) (v : Nat) (hv : v ≠ t.id) (hv0 : v ≠ 0)
+    (hc : Closed s.heap v) :
+    Agree s.heap (insert E fuel s t key val).1.heap v ∧ Closed (insert E fuel s t key val).1.heap v :=
+  (insert_ok E fuel s t key val hinv hroot).ext.others v hv hv0 hc
+
+theorem C11_delete_leaves_foreign_objects_partial (E : Env) (fuel : Nat) (s : PS) (t : PTree) (key val : Nat)
+    (hinv : Inv t.id s) (hroot : Vis s.heap t.id t.root) (v : Nat) (hv : v ≠ t.id) (hv0 : v ≠ 0)
+    (hc : Closed s.heap v) :
+    Agree s.heap (delete E fuel s t key val).1.heap v ∧ Closed (delete E fuel s t key val).1.heap v :=
+  (delete_ok E fuel s t key val hinv hroot).ext.others v hv hv0 hc
+
+theorem C11_makeRoot_leaves_foreign_objects_partial (E : Env) (fuel : Nat) (s : PS) (t : PTree)
+    (hinv : Inv t.id s) (hroot : Vis s.heap t.id t.root) (v : Nat) (hv : v ≠ t.id) (hv0 : v ≠ 0)
+    (hc : Closed s.heap v) :
+    Agree s.heap (runM (flush E t fuel) s).2.1.heap v ∧ Closed (runM (flush E t fuel) s).2.1.heap v :=
+  (runM_ok (flush_sat E t fuel) hinv hroot).2.2.1.others v hv hv0 hc
+
+/-- a clone is made *for* the new tree: the source (like every other tree) is left as it is -/
+theorem C11_clone_leaves_every_tree_partial (E : Env) (fuel : Nat) (s : PS) (t : PTree) (newId : Nat)
+    (hinv : Inv newId s) (h1 : t.id ≠ newId) (h0 : t.id ≠ 0) (hct : Closed s.heap t.id) (hroot : Vis s.heap t.id t.root)
+    (v : Nat) (hv : v ≠ newId) (hv0 : v ≠ 0) (hc : Closed s.heap v) :
+    Agree s.heap (runM (clone E t newId fuel) s).2.1.heap v ∧ Closed (runM (clone E t newId fuel) s).2.1.heap v :=
+  (runM_ok (clone_sat (lvl := 2) E t newId fuel h1 h0) hinv
+    ⟨hct, fun l hl => by simp at hl; subst hl; exact hroot⟩).2.2.1.others v hv hv0 hc
+
+end Mast.Ptr
+#print axioms Mast.Ptr.C11_insert_leaves_foreign_objects_partial
+#print axioms Mast.Ptr.C11_delete_leaves_foreign_objects_partial
+#print axioms Mast.Ptr.C11_makeRoot_leaves_foreign_objects_partial
+#print axioms Mast.Ptr.C11_clone_leaves_every_tree_partial
 #print axioms Mast.Heap.C11_no_conflicting_access_partial
 #print axioms Mast.Heap.C11_noninterference_partial
 #print axioms Mast.Heap.C11_interleaving_partial
